@@ -378,6 +378,17 @@ class HistSet:
         return Poly.atom(self.names[k])
 
 
+class PyFunc:
+    """A callee modelled by the checker: called with evaluated (args, kwargs)."""
+
+    def __init__(self, f, name="<model>"):
+        self.f = f
+        self.name = name
+
+    def __repr__(self):
+        return f"<pyfunc {self.name}>"
+
+
 class Closure:
     def __init__(self, node, interp):
         self.node = node
@@ -718,6 +729,18 @@ class Interp:
             xa = [self.eval(a) for a in e.args]
             xk = {k.arg: self.eval(k.value) for k in e.keywords if k.arg}
             return self.externals[name](xa, xk)
+        if isinstance(f, ast.Name) and isinstance(self.env.get(f.id), PyFunc):
+            xa = [self.eval(a) for a in e.args]
+            xk = {k.arg: self.eval(k.value) for k in e.keywords if k.arg}
+            return self.env[f.id].f(xa, xk)
+        if isinstance(f, ast.Attribute) and not (isinstance(f.value, ast.Name) and f.value.id in MODULE_NAMES):
+            try:
+                recv = self.eval(f.value)
+            except Undecided:
+                recv = None
+            if isinstance(recv, Obj):
+                xa = [to_poly(self.eval(a)) for a in e.args]
+                return fn(f.attr, Poly.atom(recv.name), *xa)
         # closures and inlined methods
         if isinstance(f, ast.Name) and isinstance(self.env.get(f.id), Closure):
             clo = self.env[f.id]
